@@ -64,14 +64,36 @@ CLAIMED = {
          "The point bound is 16u x the magnitudes of the documented normalise + homogeneous-coordinate computation (measured error <= 0.04 x bound); the central-endpoint fall-back is accepted only within that bound of an envelope border; point accuracy is asserted on integer grids only (the statement's rounding distance presumes no overflow); a copy of any endpoint at the intersection position is exact (0 and -0 are one position).", "DESIGN.md §4 C12"),
  "C14": ("rapid valid-by-construction polygons (holes, multi, directions, start vertices) vs exact rational centroids",
          "Generated-input search with validity by construction (star-shaped shells verified with exact cross products, holes in disjoint cells inside the inscribed disc, members in disjoint boxes) and metamorphic decoration (direction, start vertex, duplicated and collinear vertices, all rings reversed): point, line and area centroids, the zero-area fall-back, the Centroid dispatch, IsRingCounterClockwise and SignedArea are compared with exact rational references under a derived forward error bound.",
-         "Only valid polygons, polylines of positive total length and non-empty point sets (documented preconditions / undefined means are not generated); tolerance = 8 x forward bound of the fan decomposition about the library's base point (measured error <= 0.04 x tolerance).", "DESIGN.md §4 C14"),
+         "Only valid polygons, polylines of positive total length and non-empty point sets (documented preconditions / undefined means are not generated); tolerance = 8 x forward bound of a fan decomposition of every ring about its own first vertex, including the rounding of each triangle's two products (measured error <= 0.05 x tolerance).", "DESIGN.md §4 C14"),
  "C20": ("rapid coordinate sequences x thresholds vs exact rational point-segment distances; idempotence",
          "Generated-input search over sequences of 0..200 points and, one case in fifty, 255..2600 points (walks, collinear runs, closed loops, repeats, zig-zags) and threshold classes: index list shape, the exact distance of every omitted point to the segment joining its retained neighbours, exactness at threshold 0, idempotence and input immutability; the input array is refilled with another line and simplified again.",
-         "Rounding slack thr*2^-30 + 2^-40*scale covers the library's own floating-point distance; integer grids up to 2^16.", "DESIGN.md §4 C20"),
+         "Rounding slack thr*2^-30 + 2^-40*(largest ordinate of the three points involved) covers the library's own floating-point distance; at threshold 0 the dropped point must be exactly on the segment.", "DESIGN.md §4 C20"),
 
  "C17": ("rapid call mixes over a shared pool: bitwise argument snapshots, sequential-vs-concurrent result comparison, Go race detector",
          "Generated-input search over call mixes from an inventory of 43 groups of non-mutating exported functions: phase A runs each mix alone with a bitwise snapshot of every argument (flat arrays up to capacity, offsets, byte slices) and of the package option variables around every call; phase B runs the same mix from 4..16 goroutines on the same pool and requires every result to equal its phase-A value; the driver also runs the property from a -race binary, where any report of the race detector is a violation.",
          "Interleavings are explored by the Go scheduler, not owned by the harness: the race detector's happens-before analysis finds unsynchronised sharing on executed paths regardless of actual collisions, but an order-dependent logical race behind proper synchronisation would be missed; schedule-dependent failures are reported with the call mix and the detector report, not shrunk.", "DESIGN.md §4 C17, §6"),
+}
+
+# Additions of the third session, appended to the level text (DESIGN.md §8.7).
+EXTRA = {
+ "C01": " Single-coordinate views (NumCoords, Coord(i), Point.X/Y/Z/M, SubLineString) read back what was set; one coordinate in forty is entirely the empty-point NaN pattern; a quarter of the long lines sit at 2^k-1, 2^k, 2^k+1 coordinates or ordinates (k = 8..11).",
+ "C02": " What an accessor returned for a part without storage is grown by the caller and every accessor asked again (growreturned); collections are probed with CheckLayout/SetLayout for every layout.",
+ "C03": " Further steps per case: a Marshal/Write/hex Encode that fails half-way precedes everything (poison); writers fail with (0,err), (n/2,err) or (n,err); the reference bytes with members in byte orders of their own must decode to the same model; the same object three times in a collection tree; decoded geometries and returned byte slices are looked at again after later calls; the coordinates are exchanged in place through an alias taken before the first call and the same object is marshalled again; encodings just above 2^16 members and 2^20 / 2^21 ordinates (coordinates a function of the index) through Marshal, Unmarshal, Write and a chunk-limited Read.",
+ "C04": " Reference encodings with members in byte orders of their own (a third of the bases); valid encodings decoded under limits exactly equal to their largest counts must decode (valid-tight).",
+ "C05": " Further steps per case: a failing Marshal first (poison); the same object three times in a collection tree; the parsed geometry looked at again after later parses; x and y exchanged in place through an alias taken before the first call and the same object marshalled again.",
+ "C06": " Token mutants additionally get a run of 1-70 padding bytes (Latin-1 spaces 0x85/0xA0, other bytes above 0x7F, line breaks, NUL, real UTF-8) at the end, the start or a drawn position; case texts survive their JSON form as hex when they are not valid UTF-8.",
+ "C07": " Further steps per case: encodings that fail (non-finite ordinate in a later member, bbox of nothing) first; the *Geometry returned by Encode marshalled after another encoding; the decoded geometry looked at again after later decodes; the same object three times in a collection tree.",
+ "C08": " Further steps in geom mode: the box returned is extended by its caller and the bounds asked again (also of a new empty geometry); every ordinate is rewritten in place through aliases taken before the first call and the bounds asked again, the expectation coming from the model.",
+ "C09": " Magnitudes shifted by exact powers of two to 2^+-300; x and y exchanged in place through an alias taken before the first measure and the same object measured again; NoLayout geometries; rings of 2^16+1 and just above 2^20 ordinates (coordinates a function of the index) against an exact big.Int shoelace.",
+ "C11": " Whole-number rings over the int32 and +-2^53 ranges.",
+ "C13": " Small integer lattices scaled by exact powers of two to both ends of the float64 range.",
+ "C14": " Classes far-members (small members up to 2^44 from the first polygon) and thin-frame (a hole filling all but a 1-9 unit wide, uneven frame of a shell up to 2^40 wide); MultiPoints with EMPTY members; all x,y multiplied by an exact power of two up to 2^+-280 and results scaled back.",
+ "C15": " 2-D coordinates carry distinct extra ordinates or have different lengths; every case may be scaled by an exact power of two (to 2^+-480 in 2-D, 2^+-230 in 3-D), results scaled back exactly.",
+ "C16": " Clones of geometries just above 2^20 (thorough: 2^21, 2^22) ordinates for every kind and layout, coordinates a function of the index.",
+ "C17": " Further call groups: every decoder handed every byte slice of an item, also of another format (text where binary is expected); pool polygons with holes whose rings close in x,y only (M differs); option values and option slices shared by all goroutines; every mix also run in reverse order.",
+ "C18": " Each option slice is used for two calls; the *Geometry returned by Encode is marshalled after another digit-limited encoding.",
+ "C19": " Increments of 28-31 and 365/366 days (date headers that look at part of the date); the track returned by Read is looked at again after another stream was read.",
+ "C20": " Mixed-scale lines (unit-sized detail between legs 2^40..2^62 long); every case may be scaled by an exact power of two to 2^+-400 together with its threshold; the rounding slack of a dropped point is relative to the three points involved.",
 }
 PENDING_REASON = "check not built yet in this session (planned, see DESIGN.md §4); not claimed until its harness package exists"
 
@@ -87,7 +109,7 @@ for p in props:
             evidence_file="evidence/%s.json" % pid,
             replay_cmd_template="./check %s --replay {path}" % pid,
             engine="rapid-harness",
-            level_claimed=dict(category="exploration", text=text, design_ref=ref),
+            level_claimed=dict(category="exploration", text=text + EXTRA.get(pid, ""), design_ref=ref),
             level_note=note,
             technique=tech,
         ))
